@@ -79,6 +79,9 @@ pub enum DatumSpec {
     FromInputSub(String, Q),
     /// `datum: input - <q>` / `datum: input + <q>` for an input declared `datum_is: Int`
     Whole(String, bool, Q),
+    /// RecM { m: {<k1>: 1, <input>.a: 2, <k2>: 3,}, }: a map literal whose keys are bound at
+    /// different stages (two arguments and a datum field) and may coincide
+    MapLit(String, Q, Q),
 }
 
 #[derive(Clone, Debug)]
@@ -106,6 +109,8 @@ pub enum SlotExpr {
     Q(Q),
     /// time_to_slot(slot_to_time(tip_slot() + k))
     RoundTrip(i128),
+    /// time_to_slot(<q>): a bound given as a time; a time before the chain's origin has no slot
+    FromTime(Q),
 }
 
 #[derive(Clone, Debug)]
@@ -166,6 +171,8 @@ pub struct Program {
     pub policies: Vec<(String, Vec<u8>)>,
     pub tokens: Vec<Token>,
     pub has_rec: bool,
+    /// declares `type RecM { m: Map<Int, Int>, }`
+    pub has_recm: bool,
     /// declares `type Act { A0, ..., A9 }`
     pub has_act: bool,
     pub env: Vec<(String, Ty)>,
@@ -235,6 +242,7 @@ impl Program {
             }
             SlotExpr::Q(q) => pq(q),
             SlotExpr::RoundTrip(k) => format!("time_to_slot(slot_to_time(tip_slot() + {}))", k),
+            SlotExpr::FromTime(q) => format!("time_to_slot({})", pq(q)),
         }
     }
 
@@ -264,6 +272,9 @@ impl Program {
         }
         if self.has_rec {
             s.push_str("\ntype Rec {\n    a: Int,\n    b: Bytes,\n    l: List<Int>,\n}\n");
+        }
+        if self.has_recm {
+            s.push_str("\ntype RecM {\n    m: Map<Int, Int>,\n}\n");
         }
         if self.has_act {
             s.push_str("\ntype Act {\n");
@@ -376,6 +387,12 @@ impl Program {
                     pq(q),
                     i,
                     i
+                )),
+                Some(DatumSpec::MapLit(i, k1, k2)) => s.push_str(&format!(
+                    "        datum: RecM {{ m: {{{}: 1, {}.a: 2, {}: 3,}}, }},\n",
+                    pq(k1),
+                    i,
+                    pq(k2)
                 )),
                 Some(DatumSpec::Whole(i, sub, q)) => s.push_str(&format!(
                     "        datum: {} {} {},\n",
@@ -571,7 +588,7 @@ pub fn gen_program(t: &mut Tape, cfg: &GenCfg) -> Program {
     p
 }
 
-fn gen_min(t: &mut Tape, cfg: &GenCfg, p: &Program, params: &mut Vec<(String, Ty)>, outs: &[String]) -> Option<Amount> {
+fn gen_min(t: &mut Tape, cfg: &GenCfg, p: &Program, params: &mut Vec<(String, Ty)>, outs: &[String], prev_input: Option<&str>) -> Option<Amount> {
     let mut terms: Vec<(bool, Term)> = vec![];
     let shape = match cfg.profile {
         // histories (C20): thresholds that mention min_utxo(..) are where a stale body can decide
@@ -580,6 +597,12 @@ fn gen_min(t: &mut Tape, cfg: &GenCfg, p: &Program, params: &mut Vec<(String, Ty
         Profile::Fee => t.weighted(&[2, 0, 1, 5, 3]),
         _ => t.weighted(&[3, 1, 2, 3, 2]),
     };
+    if let Some(prev) = prev_input {
+        if t.chance(1, 14) {
+            // `min_amount: <another input>`: the query of this block depends on what that block is bound to
+            return Some(Amount(vec![(false, Term::Input(prev.to_string()))]));
+        }
+    }
     match shape {
         0 => terms.push((false, Term::Ada(small_q(t, params, "q")))),
         1 => return None,
@@ -657,7 +680,8 @@ fn gen_tx(t: &mut Tape, cfg: &GenCfg, p: &mut Program, k: usize) -> TxSpec {
         } else {
             None
         };
-        let min = gen_min(t, cfg, p, &mut params, &named);
+        let prev_name = tx.inputs.last().map(|x| x.name.clone());
+        let min = gen_min(t, cfg, p, &mut params, &named, prev_name.as_deref());
         let datum_is = datum_tx && t.chance(1, 2);
         let datum_int = datum_is && t.chance(1, 3);
         if datum_is && !datum_int {
@@ -992,7 +1016,16 @@ fn small_q_tok(t: &mut Tape, params: &mut Vec<(String, Ty)>) -> Q {
 }
 
 fn gen_slot(t: &mut Tape, params: &mut Vec<(String, Ty)>) -> SlotExpr {
-    match t.draw(4) {
+    match t.draw(5) {
+        4 => {
+            if t.chance(1, 2) {
+                let name = format!("tm{}", params.len());
+                params.push((name.clone(), Ty::Int));
+                SlotExpr::FromTime(Q::Param(name))
+            } else {
+                SlotExpr::FromTime(Q::Lit(*t.pick(&[1_757_611_500_000i128, 0, 1_757_611_408, 1_655_000_000_000, 1_757_611_408_000])))
+            }
+        }
         0 => SlotExpr::TipPlus(t.draw(3) as i128 * 50),
         1 => {
             let name = format!("s{}", params.len());
@@ -1019,6 +1052,21 @@ fn gen_datum(t: &mut Tape, cfg: &GenCfg, p: &mut Program, tx: &TxSpec, params: &
             return Some(DatumSpec::Whole(i, t.chance(1, 2), small_q(t, params, "x")));
         }
         p.has_rec = true;
+        if t.chance(1, 6) {
+            p.has_recm = true;
+            let mut key = |t: &mut Tape, params: &mut Vec<(String, Ty)>| {
+                if t.chance(2, 3) {
+                    let name = format!("mk{}", params.len());
+                    params.push((name.clone(), Ty::Int));
+                    Q::Param(name)
+                } else {
+                    Q::Lit(*t.pick(&[7i128, 3]))
+                }
+            };
+            let k1 = key(t, params);
+            let k2 = key(t, params);
+            return Some(DatumSpec::MapLit(i, k1, k2));
+        }
         match t.draw(4) {
             0 => Some(DatumSpec::Spread(small_q(t, params, "x"), i)),
             1 => Some(DatumSpec::FromInput(i, small_q(t, params, "x"))),
@@ -1142,7 +1190,7 @@ pub fn gen_ledger(t: &mut Tape, w: &mut crate::world::World, p: &Program, cfg: &
             Some(tir::Expression::Struct(tir::StructExpr {
                 constructor: 0,
                 fields: vec![
-                    tir::Expression::Number(t.draw(1000) as i128),
+                    tir::Expression::Number(if t.chance(1, 3) { *t.pick(&[7i128, 3]) } else { t.draw(1000) as i128 }),
                     tir::Expression::Bytes(vec![0xCA, 0xFE]),
                     tir::Expression::List(vec![
                         tir::Expression::Number(10),
@@ -1154,7 +1202,29 @@ pub fn gen_ledger(t: &mut Tape, w: &mut crate::world::World, p: &Program, cfg: &
         } else {
             None
         };
-        w.chain.create(p.parties[owner].addr.clone(), v, datum);
+        // the same payment key under the other address form (enterprise <-> base): another address
+        let addr = if t.chance(1, 10) {
+            let a = &p.parties[owner].addr;
+            if a.len() == 29 {
+                let mut b = vec![a[0] & 0x0f];
+                b.extend_from_slice(&a[1..29]);
+                b.extend(std::iter::repeat(0x5E).take(28));
+                b
+            } else {
+                let mut b = vec![0x60 | (a[0] & 0x0f)];
+                b.extend_from_slice(&a[1..29]);
+                b
+            }
+        } else {
+            p.parties[owner].addr.clone()
+        };
+        let k = w.chain.create(addr, v, datum);
+        if t.chance(1, 10) {
+            let len = *t.pick(&[600usize, 30, 2000]);
+            if let Some(u) = w.chain.utxos.get_mut(&k) {
+                u.script = Some(tir::Expression::Bytes(vec![0x4D; len]));
+            }
+        }
     }
     w.addr_pool = p.parties.iter().map(|x| x.addr.clone()).collect();
     let mut pool: Vec<Value> = vec![];
@@ -1224,6 +1294,12 @@ pub fn gen_args(t: &mut Tape, p: &Program, tx: &TxSpec, chain: &SimChain, dist: 
                     ArgDist::Small => {
                         if n.starts_with('i') {
                             *t.pick(&[1i128, 0, 2, 3])
+                        } else if n.starts_with("mk") {
+                            // map keys: a small domain, so that keys bound at different stages coincide
+                            *t.pick(&[7i128, 7, 3])
+                        } else if n.starts_with("tm") {
+                            // a time: after the cursor, at it, in seconds instead of milliseconds, zero, long ago
+                            *t.pick(&[1_757_611_999_000i128, 1_757_611_408_000, 1_757_611_408, 0, 1_600_000_000_000, 1_655_937_266_500])
                         } else if n.starts_with('s') {
                             *t.pick(&[1000i128, 0, 50, 1 << 20])
                         } else if n.starts_with('n') || n.starts_with('k') {
